@@ -8,6 +8,7 @@
 #include <filesystem>
 #include <fstream>
 #include <algorithm>
+#include <cctype>
 using namespace vh;
 namespace fs = std::filesystem;
 
@@ -105,7 +106,41 @@ int main(int argc, char** argv)
                 }
                 else all += "NONE";
             }
-            return "OK\t" + ats + "\t" + fls + "\t" + pres + "\t" + rds + "\t" + all;
+            // every plainly named entry once more, this time through the virtual file system (add_pbo_mapping, get_info,
+            // read_file): the route scripts take.  VFS:<hexname>=<hexbytes>|MISSING;...  ("-": no plain prefix)
+            std::string vfs = "-";
+            auto plain = [](const std::string& t) {
+                if (t.empty() || t.front() == '\\' || t.back() == '\\') return false;
+                size_t seg = 0;
+                for (size_t i = 0; i <= t.size(); ++i)
+                {
+                    if (i == t.size() || t[i] == '\\')
+                    {
+                        auto sg = t.substr(seg, i - seg);
+                        if (sg.empty() || sg == "." || sg == "..") return false;
+                        seg = i + 1;
+                        continue;
+                    }
+                    unsigned char ch = (unsigned char)t[i];
+                    if (!(std::isalnum(ch) || ch == '_' || ch == '-' || ch == '.')) return false;
+                }
+                return true;
+            };
+            if (pre.has_value() && plain(*pre))
+            {
+                NullLogger lg;
+                sqf::fileio::impl_default io(lg);
+                io.add_pbo_mapping(p);
+                vfs.clear();
+                for (auto& d : pbo.files())
+                {
+                    if (!plain(d.name)) continue;
+                    std::string req = "\\" + *pre + "\\" + d.name;
+                    auto info = io.get_info(req, {});
+                    vfs += hex(d.name) + "=" + (info.has_value() ? hex(io.read_file(*info)) : std::string("MISSING")) + ";";
+                }
+            }
+            return "OK\t" + ats + "\t" + fls + "\t" + pres + "\t" + rds + "\t" + all + "\tVFS:" + vfs;
         }, 5000, mem_mb);
         auto after = snapshot(dir);
         std::cout << res << "\tFS:" << (before == after ? "same" : "changed") << "\n";
